@@ -1103,6 +1103,198 @@ def rule_r13(ctx):
         raise AnalysisBroken("only %d constructors that initialise m_refcnt" % n)
 
 
+# ---------------------------------------------------------------------------
+# R14: replace after success -- the old value of a field is released only once its replacement exists
+
+
+def rule_r14(ctx):
+    from .. import guards as G
+    r = ctx.rule("C20.R14", "T3", "failure atomicity of replacing an owned value: where a function releases the value held in a field and "
+                 "stores a freshly allocated one into the same field, the allocation comes first -- when it fails the function "
+                 "returns NNG_ENOMEM with the old value still in place, not with a NULL or dangling field in a live object", floor=8)
+    prog = ctx.prog
+    EXC = {
+        ("ws_frame_prep_tx", "frame->adata"): "scratch buffer without content to preserve: the failing edge leaves adata NULL and resets "
+                                              "asize to 0, and the next call allocates again",
+    }
+    n = 0
+    for f in prog.functions:
+        if f.cfg_failed:
+            continue
+        stores = []
+        for t in f.assigns():
+            l = t.node["lhs"]
+            if l.get("k") != "mem" or t.node.get("op") != "=":
+                continue
+            e = G.resolve(f, t.node["rhs"], (t.b, t.i))
+            if e is not None and e.get("k") == "call" and e.get("fn") in ALLOC:
+                stores.append((t, e))
+        if not stores:
+            continue
+        for c in f.calls(RELEASERS):
+            if not c.node["args"]:
+                continue
+            a = f.expand(c.node["args"][0])
+            if a is None or a.get("k") != "mem":
+                continue
+            for t, e in stores:
+                if show(a) != show(t.node["lhs"]):
+                    continue
+                n += 1
+                apos = [(x.b, x.i) for x in f.calls(e["fn"]) if x.node.get("_id") == e.get("_id")]
+                if not apos:
+                    raise AnalysisBroken("%s: allocation site of %s not found" % (f.name, show(t.node["lhs"])))
+                after = f.reach((c.b, c.i + 1))
+                if not any(p_ in after for p_ in apos):
+                    r.ob(f, "%s: released (line %s) only after the replacement was allocated (line %s)" % (show(a), c.line, f.line_of(*apos[0])))
+                elif (f.name, show(a)) in EXC:
+                    r.exception("%s %s" % (f.name, show(a)), EXC[(f.name, show(a))])
+                    r.ob(f, "excepted")
+                else:
+                    ctx.fail(r, f, "%s released before its replacement is allocated" % show(a), c.line,
+                             "%s releases %s at line %s and only then allocates the new value (line %s): when that allocation "
+                             "fails the object stays in use with the old value gone (NULL or dangling field)"
+                             % (f.name, show(a), c.line, f.line_of(*apos[0])))
+    if n < 8:
+        raise AnalysisBroken("only %d release/replace pairs found" % n)
+
+
+# ---------------------------------------------------------------------------
+# R6: what a function allocated or took over locally is released or handed on along every path
+
+R6_NONOWN = ("nni_aio_init", "nni_aio_alloc", "nng_aio_alloc", "memset", "memcpy", "strlen", "snprintf", "nni_strlcpy", "nni_mtx_init",
+             "nni_cv_init", "nni_timer_init", "nni_task_init", "nni_refcnt_init", "strcmp", "nni_strcasecmp", "strncmp", "memcmp",
+             "nni_msg_len", "nni_msg_body", "nni_msg_header", "nni_msg_header_len")
+R6_NONOWN_PREFIX = ("nni_stat_", "nni_list_first", "nni_list_next", "nni_list_empty", "nni_list_active", "nni_list_node_",
+                    "nni_list_remove", "nni_list_last", "nni_atomic_", "nng_log_", "nni_aio_get_")
+
+
+def _strip_cast(e):
+    while e is not None and e.get("k") == "cast":
+        e = e["e"]
+    return e
+
+
+class _LocalOwnClient(Client):
+    """state: frozenset of (local, line of acquisition[, aio the object came from]) still owned by this function, plus
+    ('<res>', aio, is-zero) facts about nni_aio_result so that two tests of the same result agree."""
+
+    def __init__(self, fn):
+        self.fn = fn
+        self.leaks = []
+        self.sites = set()
+
+    def init(self, sim):
+        return frozenset()
+
+    def src(self, e):
+        e = _strip_cast(self.fn.expand(e)) if e is not None else None
+        return e is not None and e.get("k") == "call" and (e.get("fn") in ALLOC or e.get("fn") == "nni_aio_get_output")
+
+    def akey(self, e):
+        e = _strip_cast(self.fn.expand(e))
+        if e.get("fn") == "nni_aio_get_output" and e["args"]:
+            return (show(self.fn.expand(e["args"][0])),)
+        return ()
+
+    def held(self, a, st):
+        a = _strip_cast(self.fn.expand(a)) if a is not None else None
+        if a is not None and a.get("k") == "un" and a.get("op") == "&" and a["e"].get("k") == "mem" and a["e"].get("arrow"):
+            a = _strip_cast(self.fn.expand(a["e"]["b"]))       # nng_stream_free(&c->stream)
+        if a is not None and a.get("k") == "var":
+            for x in st:
+                if x[0] == a["n"] and x[0] != "<res>":
+                    return x
+        return None
+
+    def node(self, st, n, sim):
+        k = n.get("k")
+        fn = self.fn
+        if k == "asg" and n.get("op") == "=":
+            l = n["lhs"]
+            if l.get("k") == "var" and l.get("vk") == "local":
+                st = frozenset(x for x in st if x[0] != l["n"])
+                if self.src(n["rhs"]):
+                    self.sites.add(fn.line_of(*sim.cur))
+                    return st | {(l["n"], fn.line_of(*sim.cur)) + self.akey(n["rhs"])}
+                return st
+            h = self.held(n["rhs"], st)
+            return st - {h} if h else st
+        if k == "decls":
+            for d in n["d"]:
+                st = frozenset(x for x in st if x[0] != d["n"])
+                if d.get("init") is not None and self.src(d["init"]):
+                    self.sites.add(fn.line_of(*sim.cur))
+                    st = st | {(d["n"], fn.line_of(*sim.cur)) + self.akey(d["init"])}
+            return st
+        if k == "ret" and n.get("e") is not None:
+            h = self.held(n["e"], st)
+            return st - {h} if h else st
+        if k == "call":
+            f_ = n.get("fn") or ""
+            if f_ in R6_NONOWN or f_.startswith(R6_NONOWN_PREFIX):
+                return st
+            for a in n["args"]:
+                h = self.held(a, st)
+                if h:
+                    st = st - {h}
+        return st
+
+    def branch(self, st, subj, val, sim):
+        z = val[0] == "Z" or (val[0] == "EQ" and val[1] == 0)
+        nzv = val[0] == "NZ" or (val[0] == "NE" and val[1] == 0) or (val[0] == "EQ" and val[1] != 0)
+        if subj.get("k") == "call" and subj.get("fn") in ("nni_aio_result", "nng_aio_result") and subj["args"]:
+            key = show(self.fn.expand(subj["args"][0]))
+            if z or nzv:
+                for x in st:
+                    if x[0] == "<res>" and x[1] == key and x[2] != z:
+                        return None
+                if nzv:
+                    # a failed operation delivered no object
+                    st = frozenset(x for x in st if not (x[0] != "<res>" and len(x) > 2 and x[2] == key))
+                return st | {("<res>", key, z)}
+            return st
+        if subj.get("k") == "var" and z:
+            return frozenset(x for x in st if x[0] != subj["n"])
+        return st
+
+    def at_exit(self, st, sim, via):
+        for x in st:
+            if x[0] != "<res>":
+                self.leaks.append((x[0], x[1], sim.lines()))
+
+
+def rule_r6(ctx):
+    r = ctx.rule("C20.R6", "T4", "no leak on a failure path: a local that received a fresh allocation (nni_alloc/nni_zalloc/nni_strdup) or "
+                 "the object a completed operation delivered (nni_aio_get_output) is, on every path to the function's exit, "
+                 "released, stored into a longer-lived object, linked into a list, returned or handed to another function", floor=60)
+    n = 0
+    for f in ctx.prog.functions:
+        if f.cfg_failed or f.file.endswith("_test.c") or "testing/" in f.file:
+            continue
+        if not any(c.node.get("fn") in ALLOC or c.node.get("fn") == "nni_aio_get_output" for c in f.calls()):
+            continue
+        cl = _LocalOwnClient(f)
+        sim = Sim(f, cl, max_states=20000)
+        sim.run()
+        if sim.truncated:
+            raise AnalysisBroken("ownership simulation truncated in %s" % f.name)
+        seen = set()
+        for v, line, lines in cl.leaks:
+            if (v, line) in seen:
+                continue
+            seen.add((v, line))
+            ctx.fail(r, f, "%s neither released nor handed on" % v, line,
+                     "%s holds what was allocated / delivered at line %s, and the function can return without releasing it, "
+                     "storing it, or passing it on: on that (failure) path the object is lost" % (v, line), lines)
+        for ln in sorted(cl.sites):
+            n += 1
+            if not any(l_ == ln for _, l_ in seen):
+                r.ob(f, "acquisition at line %s: released or handed on along every path" % ln)
+    if n < 60:
+        raise AnalysisBroken("only %d local acquisitions found" % n)
+
+
 def run(ctx):
     ctx.guard(rule_r1)
     ctx.guard(rule_r2)
@@ -1115,3 +1307,5 @@ def run(ctx):
     ctx.guard(rule_r11)
     ctx.guard(rule_r12)
     ctx.guard(rule_r13)
+    ctx.guard(rule_r14)
+    ctx.guard(rule_r6)
